@@ -1716,7 +1716,7 @@ def _uniform_defaults():
         return None, None
 
 
-def read_init(fn):
+def read_init(fn, over='self.agents'):
     b = lambda v: 'true' if v else 'false'
     F = dict(perAgent=False, rows='.other', targetIsRowJ=False, low='.unknown', high='.unknown', sizeIsDims=False,
              writesLb='none', writesUb='none', extraStmts=0)
@@ -1725,7 +1725,7 @@ def read_init(fn):
         F['extraStmts'] = 1
         return show()
     stmts = [s for s in body_of(fn) if not (isinstance(s, ast.Expr) and isinstance(s.value, ast.Call) and ast.unparse(s.value.func).startswith('logger.'))]
-    if len(stmts) != 1 or not isinstance(stmts[0], ast.For) or ast.unparse(stmts[0].iter) != 'self.agents' or not isinstance(stmts[0].target, ast.Name) \
+    if len(stmts) != 1 or not isinstance(stmts[0], ast.For) or ast.unparse(stmts[0].iter) != over or not isinstance(stmts[0].target, ast.Name) \
             or stmts[0].orelse:
         F['extraStmts'] = max(1, len(stmts))
         return show()
@@ -1795,6 +1795,7 @@ def gen_loops():
     texts, data = _old_gen_loops11()
     rows = [(n, read_init(find_method(f'{REPO}/opytimizer/spaces/{f}.py', c, '_initialize_agents')))
             for n, f, c in (('searchInit', 'search', 'SearchSpace'), ('treeInit', 'tree', 'TreeSpace'), ('hyperInit', 'hyper', 'HyperSpace'))]
+    rows.append(('terminalsInit', read_init(find_method(f'{REPO}/opytimizer/spaces/tree.py', 'TreeSpace', '_initialize_terminals'), over='self.terminals')))
     texts['InitDefs'] = '\n'.join(['-- GENERATED by harness/translate_loops.py from the _initialize_agents methods. Do not edit.',
                                    'import OpyVerif.Model.InitProg', 'namespace Opy.Gen', 'open Opy', ''] +
                                   [f'def {n} : InitLoop := {t}' for n, t in rows] + ['', 'end Opy.Gen', ''])
@@ -1803,6 +1804,8 @@ def gen_loops():
                                'theorem searchInit_eq : searchInit = Expected.searchInit := by decide +kernel',
                                'theorem treeInit_eq : treeInit = Expected.searchInit := by decide +kernel',
                                'theorem hyperInit_eq : hyperInit = Expected.hyperInit := by decide +kernel',
+                               '/-- `TreeSpace._initialize_terminals` is the same loop over `self.terminals` -/',
+                               'theorem terminalsInit_eq : terminalsInit = Expected.searchInit := by decide +kernel',
                                'end Opy.Gen', ''])
     data['init'] = dict(rows)
     return texts, data
